@@ -23,6 +23,25 @@ pub fn gen(r: &mut Rng, tier: &str, emit: &mut dyn FnMut(String)) {
         }
         emit(line.trim_end().to_string());
     }
+    // long slices (word-at-a-time or lane-wise summation shows only past a few hundred bytes of
+    // large values): every length class × fills, through append, delete and the sink's vec
+    let mut lens: Vec<usize> = vec![63, 64, 65, 255, 256, 257, 511, 513, 1023, 1024, 1031, 1032, 1033, 1500, 2047, 2049, 4096, 8191, 16385, 65535, 65536, 65537];
+    if tier == "thorough" { lens.extend([131071, 262145, 1 << 20, (1 << 20) + 3]); }
+    for &l in &lens {
+        for fill in 0..5u64 {
+            let bs: Vec<u8> = match fill {
+                0 => vec![0xff; l],
+                1 => vec![0x80; l],
+                2 => vec![0x01; l],
+                3 => r.bytes(l),
+                _ => r.bytes(l).into_iter().map(|b| b | 0x80).collect(),
+            };
+            let h = hex(&bs);
+            let half = hex(&bs[..l / 2]);
+            let rest = hex(&bs[l / 2..]);
+            emit(format!("A:{} D:{} a:7 kv:{} D:{} D:{} A:{} kv:{}", h, h, h, half, rest, rest, half));
+        }
+    }
     let n = if tier == "thorough" { 40000 } else { 2000 };
     for _ in 0..n {
         let len = match r.below(10) {
